@@ -19,6 +19,7 @@ from hypothesis import strategies as st
 from .. import gen
 from ..engine import (
     Hooks,
+    Observe,
     Interp,
     NOT_ENOUGH_CARDS,
     Tape,
@@ -319,62 +320,6 @@ def c15_case(draw):
 FUZZ = dict(
     thorough=dict(procs=16, runs=6000, wall=900),
 )
-
-
-class Observe(Hooks):
-    """Reads everything a user interface would read, at every quiescent
-    state: every public property and every read-only accessor for every
-    player / board / hand type.  Looking must not change what happens."""
-
-    _props = None
-
-    def __init__(self, phase=0):
-        self.calls = 0
-        self.k = phase
-
-    def quiescent(self, it):
-        # every third quiescent state (phase chosen by the case): cheap
-        # enough to run on every case, dense enough to fall between any two
-        # particular operations in a third of the cases
-        self.k += 1
-        if self.k % 3:
-            return
-        s = it.state
-        cls = type(s)
-        if Observe._props is None:
-            Observe._props = [n for n in dir(cls) if not n.startswith('_')
-                              and isinstance(getattr(cls, n), property)]
-
-        def read(f, *a):
-            self.calls += 1
-            try:
-                r = f(*a)
-                if hasattr(r, '__next__'):
-                    r = tuple(r)
-                return r
-            except (ValueError, AssertionError, IndexError, KeyError,
-                    TypeError):
-                return None
-
-        for n in Observe._props:
-            read(getattr, s, n)
-        for i in s.player_indices:
-            for f in (s.get_censored_hole_cards, s.get_down_cards,
-                      s.get_up_cards, s.can_win_now, s.get_effective_ante,
-                      s.get_effective_blind_or_straddle):
-                read(f, i)
-            if sum(s.statuses) > 1 and s.actor_index is not None:
-                read(s.get_effective_stack, i)
-        nb = read(lambda: s.board_count) or 0
-        for j in range(nb):
-            read(s.get_board_cards, j)
-            for k in s.hand_type_indices:
-                read(s.get_up_hands, j, k)
-                for i in s.player_indices:
-                    read(s.get_hand, i, j, k)
-                    read(s.get_up_hand, i, j, k)
-        read(s.get_dealable_cards)
-        read(s.get_dealable_cards, 1)
 
 
 def public_outcome(s):
